@@ -626,6 +626,12 @@ fn gen_c06(ctx: &mut Ctx) {
             };
             ctx.emit(Case::new(54 + ctx.rng.below(2) as u32).arg(k as u128).val(a));
         }
+        // an empty vector rotated by any amount is unchanged (with and without spare storage)
+        for k in [1u128, 7, 8, 63, 64, 65, 1 << 32, 1 << 63, u64::MAX as u128] {
+            let e = make_val(ka, 0, &[], ctx.rng.below(3) as usize, ctx.rng.chance(1, 2));
+            ctx.emit(Case::new(54).arg(k).val(e.clone()));
+            ctx.emit(Case::new(55).arg(k).val(e));
+        }
         // all k for every lattice value of small and boundary lengths
         let lens: Vec<usize> = boundary_lens(ka, false).into_iter().filter(|l| *l <= 66 || ctx.thorough).collect();
         for len in lens {
